@@ -21,9 +21,13 @@ func init() {
 			"(2) walking the type tree hashed from NodeClaimTemplate, the fields carrying hash:\"ignore\"/\"-\" (or any other hash tag) are exactly {NodeClaimTemplateSpec.Requirements, NillableDuration.Raw}; " +
 			"(3) every value stored under the nodepool-hash annotation key in the module is a (*NodePool).Hash() result and every value under the hash-version key is the constant NodePoolHashVersion; NodeClaim hashes are rewritten only on a version change and not for NodeClaims that already carry a Drifted condition; " +
 			"(4) areStaticFieldsDrifted returns drift only when all four annotations exist, versions are equal and the hashes differ; areRequirementsDrifted tests the NodeClaim's labels against the NodePool's template requirements; " +
-			"(5) PopulateNodeClaimDetails lets NodeClaim labels win over provider labels.",
-		NotCovered: []string{"hash sensitivity to every remaining template field value (hashstructure internals)", "end-to-end 'a freshly launched NodeClaim is not requirement-drifted' (needs label values chosen by the provider)"},
-		Rules:      c15Rules,
+			"(5) PopulateNodeClaimDetails lets NodeClaim labels win over provider labels; " +
+			"(6) instanceTypeNotFound reports drift only when no instance type carries the NodeClaim's instance-type label or Offerings.HasCompatible answers false for that instance type's FULL offering list (not an availability-filtered copy) " +
+			"under the NodeClaim's label requirements, and isDrifted hands it the provider's instance types of the NodeClaim's NodePool; Offerings.HasCompatible answers false only after every offering of the list it is given was found " +
+			"incompatible by reqs.IsCompatible(of.Requirements, AllowUndefinedWellKnownLabels) — no other attribute of an offering (Available, price) lets it pass one over — and true only for a compatible one.",
+		NotCovered: []string{"hash sensitivity to every remaining template field value (hashstructure internals)", "end-to-end 'a freshly launched NodeClaim is not requirement-drifted' (needs label values chosen by the provider)",
+			"that a provider keeps listing a temporarily unavailable offering (Available=false) instead of omitting it (provider contract, stated in the comment of instanceTypeNotFound)"},
+		Rules: c15Rules,
 	})
 }
 
@@ -31,6 +35,7 @@ func c15Rules(tier string) []Rule {
 	rules := c15RulesBase(tier)
 	// the labels / annotations resolved at launch are persisted before Launched=True is: a requeue that already sees
 	// Launched skips Launch and would never write them again (the NodeClaim then looks drifted from its NodePool)
+	rules = append(rules, c15InstanceTypeNotFound()...)
 	rules = append(rules, NOREACH{ID: "C15.NR1", Fn: "(*life.Controller).Reconcile", From: `^call iface:\(cr/client\.SubResourceWriter\)\.Patch\(iface:\(cr/client\.StatusClient\)\.Status\(\$0\.kubeClient\), `,
 		Sink: `^call iface:\(cr/client\.Writer\)\.Patch\(\$0\.kubeClient, `, Note: "no metadata patch after the status patch"})
 	return rules
@@ -294,4 +299,33 @@ func c15Populate(w *core.World, id string) []core.Result {
 		out = append(out, core.OK(id, "PROV", "PROV:"+pop, 5, "NodeClaim labels win; status details from the created instance"))
 	}
 	return out
+}
+
+// c15InstanceTypeNotFound: an offering that is temporarily unavailable is still a permitted launch choice — the instance-type
+// drift check must look at every offering the provider lists for the NodeClaim's instance type. Two facts carry that:
+// the caller hands HasCompatible the unfiltered list, and HasCompatible (a lower-layer helper whose other callers filter
+// availability themselves) skips nothing.
+func c15InstanceTypeNotFound() []Rule {
+	const (
+		itnf = "controllers/nodeclaim/disruption.instanceTypeNotFound"
+		isd  = "(*controllers/nodeclaim/disruption.Drift).isDrifted"
+		find = `lo\.Find\[\*cloudprovider\.InstanceType\]\(\$0, [a-z]+:[^ ]*\)`
+		hc   = `\(cloudprovider\.Offerings\)\.HasCompatible\(` + find + `#0\.Offerings, scheduling\.NewLabelRequirements\(\$1\.ObjectMeta\.Labels\)\)`
+	)
+	rules := []Rule{
+		core.Custom{ID: "C15.PROV5", Kind: "PROV", Run: func(w *core.World, id string) []core.Result {
+			call := `^call \(cloudprovider\.Offerings\)\.HasCompatible\(`
+			rs := core.ArgProvenance(w, id, itnf, call, 0, `^`+find+`#0\.Offerings$`, "the offerings judged are ALL offerings of the instance type found for the NodeClaim (available or not)")
+			rs = append(rs, core.ArgProvenance(w, id, itnf, call, 1, `^scheduling\.NewLabelRequirements\(\$1\.ObjectMeta\.Labels\)$`, "…against the requirements built from the NodeClaim's labels")...)
+			rs = append(rs, core.InstrPresent(w, id, "PROV", "@arg:"+itnf+`|^call `+find+`$|1`, `^return \(\$0\.Name == \^\$1\.ObjectMeta\.Labels\["node\.kubernetes\.io/instance-type"\]\)$`, 1, "the instance type is looked up by the NodeClaim's instance-type label")...)
+			rs = append(rs, core.ArgProvenance(w, id, isd, `^call controllers/nodeclaim/disruption\.instanceTypeNotFound\(`, 0, `^iface:\(cloudprovider\.CloudProvider\)\.GetInstanceTypes\(\$0\.cloudProvider, \$2\)#0$`, "the instance types searched are the provider's list for the NodeClaim's NodePool")...)
+			rs = append(rs, core.ArgProvenance(w, id, isd, `^call controllers/nodeclaim/disruption\.instanceTypeNotFound\(`, 1, `^\$3$`, "…and the NodeClaim is the one being judged")...)
+			return rs
+		}},
+		// drift is reported only for a missing instance type or when no offering at all is compatible
+		MPT{ID: "C15.MPT2", Fn: itnf, Ret: core.RetSpec{Index: 0, Want: "nonzero"}, Min: 2, Gates: gates(
+			G(`-^`+find+`#1$`, `-^`+hc+`$`),
+		), Note: "InstanceTypeNotFound ⇒ instance type missing ∨ no compatible offering in the full list"},
+	}
+	return append(rules, offeringsHasCompatibleRules("C15")...)
 }
